@@ -192,6 +192,18 @@ func cmdCheck(args []string) int {
 		}(o)
 	}
 	wg.Wait()
+	// second chance for time-outs: an obligation left undecided while all cores were busy is retried alone, with three
+	// times the budget (a time-out is a property of the machine's load, not of the code; "failed" answers are final)
+	for _, o := range all {
+		if o.Status == "undecided" {
+			o.Status = ""
+			o.Retried = true
+			o.Discharge(smt.DefaultSolvers(*timeout*3), tmp, *timeout*3, 1)
+			if o.Status == "discharged" || o.Status == "covered" {
+				o.Solver += " (retried alone)"
+			}
+		}
+	}
 
 	// known findings
 	var kf findingsFile
@@ -496,7 +508,11 @@ func truncate(s string, n int) string {
 func init() {
 	// "govc funcs <regexp>" lists SSA function names with their captured variables (to address anonymous functions)
 	extraCommands["funcs"] = func(args []string) int {
-		w, err := engine.Load("/repo", "verif")
+		repo := "/repo"
+		if len(args) > 1 {
+			repo = args[1]
+		}
+		w, err := engine.Load(repo, "verif")
 		if err != nil {
 			fmt.Fprintln(os.Stderr, err)
 			return 2
